@@ -803,6 +803,58 @@ def gen_cond_program(seed):
     return p, spell_program(p)
 
 
+def gen_break_program(seed):
+    """action-context family (C02/C06/C10): actions that the code generator emits in a nested context - the actions that
+    follow a loop left through a conditional break (emitted as "break subactions" inside the breaking transition),
+    conditional actions under nested ifs - with small buffers, so that the out-of-space redirect strikes inside them"""
+    r = random.Random(seed)
+    size = r.choice([2, 3, 3, 4])
+    term = r.random() < 0.6
+    outs = [{'name': 's0', 'type': 'str', 'size': size, 'term': term, 'default': None},
+            {'name': 'n0', 'type': 'int', 'signed': None, 'width': None, 'default': 0}]
+    A = [97, 98, 99, 59]
+    delim = 59
+    n0 = {'k': 'var', 'name': 'n0'}
+
+    def cls(bs):
+        return {'k': 're', 'r': {'k': 'set', 'inv': False, 'items': [['ch', b] for b in bs]}, 'bin': False}
+
+    def lasteq(b):
+        return {'k': 'bin', 'op': '==', 'l': {'k': 'last'}, 'r': {'k': 'chr', 'c': b}}
+    brk = [{'t': 'break', 'loop': None}]
+    k = r.random()
+    if k < 0.45:
+        cond = [{'t': 'if', 'br': [{'c': lasteq(delim), 'b': brk}], 'els': None}]
+    elif k < 0.7:
+        # nested: break only when a counter allows it, otherwise count
+        cond = [{'t': 'if', 'br': [{'c': lasteq(delim), 'b': [
+            {'t': 'if', 'br': [{'c': {'k': 'bin', 'op': '>=', 'l': n0, 'r': {'k': 'num', 'v': r.choice([0, 1, 2])}}, 'b': brk}], 'els': None},
+            {'t': 'set', 'var': 'n0', 'e': {'k': 'bin', 'op': '+', 'l': n0, 'r': {'k': 'num', 'v': 1}}}]}], 'els': None}]
+    else:
+        cond = [{'t': 'if', 'br': [{'c': {'k': 'bin', 'op': '!=', 'l': {'k': 'last'}, 'r': {'k': 'chr', 'c': delim}},
+                                    'b': [{'t': 'set', 'var': 'n0', 'e': {'k': 'bin', 'op': '+', 'l': n0, 'r': {'k': 'num', 'v': 1}}}]}], 'els': brk}]
+    body = [{'t': 'match', 'm': cls(A)}] + cond + [{'t': 'appendc', 'var': 's0', 'e': {'k': 'last'}}]
+    after = []
+    for _ in range(r.randint(1, 3)):
+        after.append(r.choice([
+            {'t': 'appendc', 'var': 's0', 'e': {'k': 'num', 'v': r.choice([36, 48])}},
+            {'t': 'appendc', 'var': 's0', 'e': {'k': 'last'}},
+            {'t': 'hook', 'n': 'h0'},
+            {'t': 'set', 'var': 'n0', 'e': {'k': 'len', 'name': 's0'}}]))
+    if not any(a['t'] == 'appendc' for a in after):
+        after.insert(r.randrange(len(after) + 1), {'t': 'appendc', 'var': 's0', 'e': {'k': 'num', 'v': 36}})
+    tail = [{'t': 'match', 'm': {'k': 'str', 'bytes': r.choice([[101, 110, 100], [120], [97, 98]])}}]
+    handler = r.choice([
+        [{'t': 'finish', 'code': 'F0'}],
+        [{'t': 'set', 'var': 'n0', 'e': {'k': 'len', 'name': 's0'}}, {'t': 'delete', 'var': 's0'}, {'t': 'wait', 'm': {'k': 'str', 'bytes': [33]}}],
+        [{'t': 'hook', 'n': 'h1'}, {'t': 'match', 'm': {'k': 'str', 'bytes': [120]}}]])
+    core = [{'t': 'try', 'b': [{'t': 'loop', 'name': None, 'b': body}] + after + tail, 'handles': ['outofspace'], 'h': handler}]
+    if r.random() < 0.4:
+        core = [{'t': 'loop', 'name': None, 'b': core + [{'t': 'hook', 'n': 'h1'}]}]
+    p = {'outs': outs, 'hooks': ['h0', 'h1'], 'fcodes': ['F0'], 'ycodes': [], 'macros': [], 'body': core, 'args': []}
+    return p, spell_program(p)
+
+
 def gen_boundary_program(seed):
     """capacity-boundary programs (C03): string sizes at the edges of the counter types, filled by a loop"""
     r = random.Random(seed)
